@@ -985,17 +985,18 @@ SUBS = [
                 # .051 / .075 / .029 / .027 / .0118 / .0178 / .053
                 'slice-nested-builtin': 0.028, 'float-nonfinite': 0.04, 'long-str': 0.015, 'long-int': 0.012,
                 'long-seq': 0.006, 'long-nested-T': 0.008, 'path-list-segment': 0.025,
-                # (finding F106) lowest share observed at seeds 1-3: .070 / .020 / .090 / .0187;
+                # (finding F106) lowest share observed at seeds 1-3: .055 / .019 / .101 / .035 / .063 / .0225;
                 # -observed: the expression carrying the literal evaluated to the end on the Observer target
-                'dict-unsorted': 0.04, 'dict-unsorted-observed': 0.011,
-                'complex-nonfinite': 0.05, 'complex-nonfinite-observed': 0.01}),
+                'dict-unsorted': 0.03, 'dict-unsorted-observed': 0.011,
+                'complex-nonfinite': 0.05, 'complex-nonfinite-observed': 0.01,
+                'complex-signed-zero': 0.035, 'complex-signed-zero-observed': 0.012}),
     Sub('seq', check_seq, gen=gen_seq, quick=3000, thorough=10000,
         floors={'compose-ok': 0.02,
                 # lowest share observed at seeds 1-3: .055 / .075 / .026 / .029 / .0073 / .018 / .040
                 'slice-nested-builtin': 0.02, 'float-nonfinite': 0.035, 'long-str': 0.015, 'long-int': 0.012,
                 'long-seq': 0.004, 'long-nested-T': 0.004, 'path-list-segment': 0.02,
-                # (finding F106) .046 / .062
-                'dict-unsorted': 0.025, 'complex-nonfinite': 0.035}),
+                # (finding F106) .051 / .069 / .070
+                'dict-unsorted': 0.025, 'complex-nonfinite': 0.035, 'complex-signed-zero': 0.04}),
     Sub('index', check_index, enum=enum_index),
     fuzzrun.fuzz_sub('fuzz-roundtrip', 'hyp:c18:roundtrip', runs=30000, campaigns=4, replay_sub='roundtrip'),
 ]
